@@ -279,3 +279,134 @@ LEMMAS = {
                doc='RV64 decoder cross-check: every instruction of the assembled scalar runtime inside the modelled subset reads the same in the model and in llvm-objdump (lengths, fields, compressed expansions); the runtime loads the mask and literal registers from the pool slots V1 assumes',
                bound='the assembled runtime from data_init to program_end', symbolic='-', stubs=[]),
 }
+
+# ------------------------------------------------------------------------------------------------ V5: the generated SuperscalarHash routine
+def rv64_linked(tag):
+    """the runtime assembled without relaxation and linked at address 0 (ld.lld) so that pc-relative references to its literal pools are resolved"""
+    d = build.workdir(tag); o = os.path.join(d, 'rv64_norelax.o'); e = os.path.join(d, 'rv64_linked.elf')
+    build.run(['clang-14', '--target=riscv64-linux-gnu', '-march=rv64gc', '-mno-relax', '-c', '-I', os.path.join(build.REPO, 'src'), os.path.join(build.REPO, 'src', 'jit_compiler_rv64_static.S'), '-o', o])
+    build.run(['ld.lld', '-m', 'elf64lriscv', '-Ttext=0', '-e', '0', o, '-o', e])
+    syms = {}
+    for l in build.run(['llvm-nm-14', '-n', e]).splitlines():
+        p = l.split()
+        if len(p) == 3: syms[p[2]] = int(p[0], 16)
+    b = os.path.join(d, 'rv64_linked.bin'); build.run(['llvm-objcopy-14', '-O', 'binary', '--only-section=.text', e, b])
+    return syms, open(b, 'rb').read()
+
+def run_V5(ctx, case):
+    """the real generateSuperscalarHash emits the SuperscalarHash routine (init template, code per instruction, load/prefetch templates, literal pool);
+    the routine, executed under the RV64 model for a symbolic cache and item number, leaves the item of specification 7.3 in x8-x15"""
+    from lemmas.sshash import kind_numbers, spec_ss, KINDS
+    from lemmas import life
+    from engine import cxxlib
+    q = Q(120); mod = Module(ctx['ll']['rv64']); L = state_layout(mod); KN = kind_numbers(); npaths = [0]; variant = case['variant']
+    syms, text = rv64_linked(ctx['tag'] + '-v5-%d' % os.getpid()); NP = P.CACHE_ACCESSES
+    plans = []; single = case.get('single')
+    for k in range(NP):
+        if single: ks = [single[0]] if k == single[3] else []
+        else: ks = [KINDS[(variant * 5 + 3 * k + j) % len(KINDS)] for j in range(case['len'])]
+        ins = []
+        for j, kd in enumerate(ks):
+            d = (k + 2 * j + variant) % 8; s_ = (d + 1 + j) % 8
+            if single: d, s_ = single[1], single[2]
+            if kd == 'IADD_RS' and d == 5: d = 6; s_ = 7
+            if s_ == d: s_ = (d + 1) % 8
+            ins.append((kd, d, s_))
+        plans.append((ins, (3 * k + variant) % 8))
+    item = z3.BitVec('itemNumber', 64); tag = 'SuperscalarHash routine (RV64) %s' % (('single %s r%d,r%d in program %d' % tuple(single)) if single else 'variant %d' % variant)
+    tj = resolve(NamedT('class.randomx::JitCompilerRV64', mod)); oj = tj.layout()[0]
+    def one(fk):
+        it = Interp(mod); it.fork = fk; H = life.Heap(it, fail=False); cxxlib.install(it, H)
+        it.mem.alloc(len(text) + 64, 'text')
+        for k, b in enumerate(text): it.mem.objs['text']['bytes'][k] = b
+        it.extern = {nm: Ptr('text', off) for nm, off in syms.items()}
+        life.run_ctors(it, mod)
+        J = it.mem.alloc(tj.size(), 'J'); CB = 1 << 18; code = it.mem.alloc(CB, 'code')
+        for k in range(0, tj.size() - tj.size() % 8, 8): it.mem.store(Ptr('J', k), 0, 8)
+        it.mem.store(Ptr('J', oj[0] + L['code']), code, 8); it.mem.store(Ptr('J', oj[2]), Ptr(None, 0), 8)       # vectorCode = nullptr: scalar back-end
+        # what the constructor copies: literals at LiteralPoolOffset
+        LIT0 = syms['randomx_riscv64_literals']; LITN = syms['randomx_riscv64_literals_end'] - LIT0
+        for k in range(LITN): it.mem.objs['code']['bytes'][POOL + k] = text[LIT0 + k]
+        tp = resolve(NamedT('class.randomx::SuperscalarProgram', mod)); po = tp.layout()[0]
+        progs = it.mem.alloc(NP * tp.size(), 'programs'); imms = {}; rcps = []
+        for k, (ins, ar) in enumerate(plans):
+            base = k * tp.size(); it.mem.store(Ptr('programs', base + po[1]), len(ins), 4); it.mem.store(Ptr('programs', base + po[2]), ar, 4)
+            for j, (kd, d, s_) in enumerate(ins):
+                REP = [5, 0x7ff, 0x800, 0x12345, 0x1000000, 0x7fffffff, 0x80000000, 0xfffff800, 0xffffffff, 0xfedcba98, 63, 0x1f000]      # stitched variants: concrete immediates of every materialisation class (symbolic ones are covered by the single-instruction jobs)
+                imm = z3.BitVec('imm_%d_%d' % (k, j), 32) if single else z3.BitVecVal(REP[(variant * 3 + 5 * k + j) % len(REP)], 32); mo = z3.BitVec('mod_%d_%d' % (k, j), 8) if single else z3.BitVecVal(((variant + k + j) % 4) << 2, 8); imms[(k, j)] = (imm, mo)
+                if kd == 'IROR_C':
+                    if single: fk['pc'] += [z3.UGE(imm, 1), z3.ULE(imm, 63)]
+                    else: imm = z3.BitVecVal(1 + (variant * 7 + 11 * k + j) % 63, 32); imms[(k, j)] = (imm, mo)
+                if kd == 'IMUL_RCP': rcps.append(z3.BitVec('rcp_%d_%d' % (k, j), 64)); immv = len(rcps) - 1
+                else: immv = imm
+                for b_, v in enumerate((KN[kd], d, s_, mo)): it.mem.store(Ptr('programs', base + 8 * j + b_), v, 1)
+                it.mem.store(Ptr('programs', base + 8 * j + 4), immv, 4)
+        it.mem.alloc(24, 'rcpvec'); it.mem.alloc(8 * max(1, len(rcps)), 'rcpbuf')
+        for n_, v in enumerate(rcps): it.mem.store(Ptr('rcpbuf', 8 * n_), v, 8)
+        it.mem.store(Ptr('rcpvec', 0), Ptr('rcpbuf', 0), 8); it.mem.store(Ptr('rcpvec', 8), Ptr('rcpbuf', 8 * len(rcps)), 8); it.mem.store(Ptr('rcpvec', 16), Ptr('rcpbuf', 8 * len(rcps)), 8)
+        it.call('_ZN7randomx15JitCompilerRV6423generateSuperscalarHashERSt5arrayINS_18SuperscalarProgramELm8EERSt6vectorImSaImEE', [J, progs, Ptr('rcpvec', 0)])
+        end = concretize(it, it.mem.load(Ptr('J', oj[0] + L['codePos']), 4), 'code length')
+        # entry = SuperScalarHashOffset: where the emitter started; recover it as end - emitted length is not needed: it is the position the data-init call is patched to
+        src = open(os.path.join(build.REPO, 'src', 'jit_compiler_rv64.cpp')).read()
+        def const(nm):
+            mm = re.search(r'constexpr\s+\w+\s+%s\s*=\s*(\d+)\s*;' % nm, src); return int(mm.group(1))
+        align = const('CodeAlign'); rxsize = ((align + align + const('MaxRandomXInstrCodeSize') * build.config_constants().get('RANDOMX_PROGRAM_MAX_SIZE', 384)) + align - 1) // align * align
+        ENTRY = rxsize + NP * align
+        # ---- machine: as randomx_riscv64_data_init calls it: x7 = item number, x6 = cache memory, x3 = literal pool, x1 = return address
+        mem = it.mem; CACHE = P.ARGON_MEMORY * 1024
+        mem.mkarr('cachemem', CACHE); mem.share('cachemem'); loads = []
+        def cache_load(off, nbytes):
+            v = z3.BitVec('cacheword%d' % len(loads), 8 * nbytes); loads.append((bv(off, 64), nbytes, v)); return v
+        mem.symload['cachemem'] = cache_load
+        mem.watch['cachemem'] = lambda p_, n_: (_ for _ in ()).throw(Fault('the SuperscalarHash routine writes to the cache'))
+        m = Machine(mem, 'code', it); entry = {r: z3.BitVec('x%d_entry' % r, 64) for r in range(1, 32)}
+        for r in range(1, 32): m.x[r] = entry[r]
+        for r in range(32): m.f[r] = z3.BitVec('f%d_entry' % r, 64)
+        m.x[7] = item; m.x[6] = Ptr('cachemem', 0); m.x[3] = Ptr('code', POOL); m.x[1] = Ptr('caller', 0); m.x[2] = Ptr('stack', 0); m.frm = z3.BitVec('frm', 3)
+        def chk(c, what):
+            q.n += 1; q.unsat += bool(c); q.sat += (not c)
+            if not c: q.failed.append(('%s: %s' % (tag, what), {}))
+        try: r = m.run(ENTRY, stop={end}, max_steps=4000)
+        except (Fault, OOB) as e:
+            chk(False, 'generated routine does not execute: %s' % e); return
+        npaths[0] += 1; pc = fk['pc']
+        chk(r[0] == 'ret' and isinstance(r[1], Ptr) and r[1].obj == 'caller', 'returns to the caller (got %s)' % (r,))
+        consts = [6364136223846793005, 9298411001130361340, 12065312585734608966, 9306329213124626780, 5281919268842080866, 10536153434571861004, 3398623926847679864, 9549104520008361294]
+        B = lambda v: z3.BitVecVal(v, 64)
+        rr = [(item + 1) * B(consts[0])]; rr += [rr[0] ^ B(c) for c in consts[1:]]; ci = item; ri = 0
+        for k, (ins, ar) in enumerate(plans):
+            off = (ci & (CACHE // 64 - 1)) * 64
+            for j, (kd, d, s_) in enumerate(ins):
+                imm, mo = imms[(k, j)]
+                if kd == 'IMUL_RCP': rv = rcps[ri]; ri += 1
+                else: rv = None
+                rr = list(rr); rr[d] = spec_ss(kd, rr, d, s_, imm, mo, rv)
+            mine = loads[8 * k:8 * k + 8]
+            okl = len(mine) == 8 and all(nb_ == 8 for (_, nb_, _) in mine); q.n += 1; q.unsat += okl; q.sat += (not okl)
+            if not okl: q.failed.append(('%s: program %d: does not read 8 words of one cache line' % (tag, k), {})); return
+            for w, (aoff, nb_, sym) in enumerate(mine): q.prove_eq(pc, aoff, off + 8 * w, '%s: program %d: cache word %d read at 64*(cacheIndex mod lines)+%d' % (tag, k, w, 8 * w), 64)
+            rr = [rr[w] ^ mine[w][2] for w in range(8)]; ci = rr[ar]
+        for w in range(8): q.prove_eq(pc, m.x[8 + w], rr[w], '%s: x%d == item word %d of spec 7.3' % (tag, 8 + w, w), 64)
+        chk(len(loads) == 8 * NP, 'exactly %d cache words read' % (8 * NP))
+        bad = [XN[r_] for r_ in (2, 3, 4, 5, 6) + tuple(range(16, 28)) if not (isinstance(m.x[r_], Ptr) and isinstance(entry.get(r_, None), Ptr)) and not (r_ in (2, 3, 6) or (not isinstance(m.x[r_], Ptr) and not is_c(m.x[r_]) and m.x[r_].eq(entry[r_])))]
+        chk(not bad, 'registers outside x1, x7-x15, x28-x31 unchanged (%s)' % bad)
+        for (kd, obj, off_, nb) in m.accesses:
+            if obj == 'code' and kd == 'store': chk(False, 'store into the code buffer')
+            elif obj not in ('code', 'cachemem'): chk(False, 'access to object %s' % obj)
+        extent_checks(q, pc, mem, tag)
+    res, nq = explore(one, limit=64); q.n += nq
+    return result('V5', tag, q, paths=npaths[0], detail='%d paths; programs %s' % (npaths[0], [[i_[0] for i_ in p_[0]] for p_ in plans][:3]))
+
+def jobs_V5(ctx):
+    from lemmas.sshash import KINDS
+    J = [dict(variant=v, len=(2 if ctx['tier'] == 'quick' else 4)) for v in (range(4) if ctx['tier'] == 'quick' else range(16))]
+    for n_, kd in enumerate(KINDS):
+        for (d, s_, pk) in (((n_ % 8, (n_ + 3) % 8, n_ % 8),) if ctx['tier'] == 'quick' else tuple((d, (d + 1 + n_) % 8, (d + n_) % 8) for d in range(8))):
+            J.append(dict(variant=0, len=1, single=(kd, d, s_, pk)))
+    return J
+LEMMAS['V5'] = dict(jobs=jobs_V5, run=run_V5, units=['rv64'], rv64=True,
+    functions=['JitCompilerRV64::generateSuperscalarHash', 'generateSuperscalarCode', 'emitImm32', 'emitRcpLiteral2', 'assembled templates: randomx_riscv64_ssh_init / ssh_load / ssh_prefetch (linked so that their pc-relative literal-pool references are resolved)'],
+    doc='the SuperscalarHash routine the scalar RISC-V back-end generates (templates + code emitted for a program list + reciprocal literal pool), executed under the RV64 model for a symbolic cache and item number, leaves the item of specification 7.3 (instruction semantics of 6.1) in x8-x15; reads exactly one cache line per program at 64*(cacheIndex mod lines)',
+    bound='(a) program lists of 8 programs x 2 (quick) / 4 instructions drawn from all 14 kinds (4 / 16 variants), reciprocals symbolic, immediates and shifts concrete representatives of every materialisation class; (b) every kind alone in one program with an unconstrained immediate; any cache content and item number',
+    symbolic='cache (cut points), item number, immediates, reciprocals, entry registers', stubs=['cache words := fresh symbols at recorded addresses', 'RV64 semantics: engine/rv64sem.py', 'ld.lld resolves the pc-relative relocations of the templates'],
+    outside='randomx_riscv64_data_init loop around the call (stores x8-x15 to the dataset); the vector back-end')
